@@ -23,6 +23,7 @@ Optional: per request "form" ("dict" | "model" = a JSONRPCMessage object, as sen
 the answer); post "body200" ("rpc"|"nonjson"|"empty"), "text", "exc_text"; case "write_mode"
 ("nowait" | "await": one client task awaits every send = back-pressure towards the producer),
 "warm" (a first session on the same parameters object, entered and left, before the observed one),
+"ctor_fails" (n: creating the n-th HTTP client raises), exit kind "cancel-asyncio-twice",
 "api" ("sse_client" | "fallback" = try_sse_with_fallback), "params" (headers / bearer_token of
 SSEParameters), "close_raises" (closing the GET response stream raises).
 conn.at, chunk ticks and close are relative to the arrival of the GET; enter.t is relative to the
@@ -137,6 +138,7 @@ def run_case(case):
     obs = {"posts": [], "delivered": [], "enter": None, "harness_errors": []}
     clients = []
     streams = []
+    made = []
 
     def dump(m):
         if hasattr(m, "model_dump"):
@@ -249,6 +251,7 @@ def run_case(case):
             if request.method == "GET":
                 t_get = loop.ticks
                 obs["get"] = [t_get, str(request.url)]
+                obs["get_hdr"] = {k.lower(): v for k, v in request.headers.items()}
                 if conn["k"] == "hang":
                     await loop.create_future()
                 await at_future(t_get + conn.get("at", 0))
@@ -271,6 +274,7 @@ def run_case(case):
             except Exception:
                 body = None
             rid = body.get("id") if isinstance(body, dict) else None
+            obs.setdefault("post_hdr", {k.lower(): v for k, v in request.headers.items()})
             obs["posts"].append([loop.ticks, str(request.url), rid, (body or {}).get("method") if isinstance(body, dict) else None])
             q = reqs.get(id_key(rid)) if rid is not None else None
             r = q.popleft() if q else None
@@ -329,6 +333,9 @@ def run_case(case):
 
         class PatchedClient(RealClient):
             def __init__(self, *a, **k):
+                made.append(1)
+                if case.get("ctor_fails") == len(made):
+                    raise RuntimeError("scripted failure creating the HTTP client")
                 k["transport"] = httpx.MockTransport(handler)
                 super().__init__(*a, **k)
                 clients.append(self)
@@ -442,9 +449,18 @@ def run_case(case):
         try:
             if case.get("warm"):
                 await warm()
-            if ex["k"] == "cancel-asyncio":
+            if ex["k"] in ("cancel-asyncio", "cancel-asyncio-twice"):
                 t = asyncio.create_task(session())
-                canceller.append(t.cancel)
+                if ex["k"] == "cancel-asyncio-twice":
+                    # a second cancellation while the context is being left
+                    def again(n):
+                        if n <= 0:
+                            t.cancel()
+                        else:
+                            loop.call_soon(again, n - 1)
+                    canceller.append(lambda: (t.cancel(), again(ex.get("hops", 2))))
+                else:
+                    canceller.append(t.cancel)
                 try:
                     await t
                 except asyncio.CancelledError:
